@@ -385,6 +385,7 @@ func runC04(w *World, r *Report) {
 	mergeDispatchCheck(w, r, "C04.stream-substrate")
 	mergedCloseAll(w, r, "C04.stream-substrate")
 	copyCellChecks(w, r, "C04.stream-substrate")
+	selectTableCheck(w, r, "C04.stream-substrate")
 
 	// ---- no-compile-time-stream
 	// ---- stream-elem-type: the stream form of a handler yields chunks of the type the value form yields
